@@ -86,6 +86,9 @@ def snake(name):
 
 def check(ctx):
     prog = ctx.prog
+    W1 = ctx.rule("W1", "wire shape of newOrder (RFC 8555 7.4: identifiers[{type,value}], optional notBefore/notAfter) as written by the derived Serialize impls")
+    from .wire_shape import check_shapes
+    check_shapes(ctx, W1, ["acmed::acme_proto::structs::order::NewOrder", "acmed::acme_proto::structs::order::Identifier"])
     b = prog.async_body(RC)
     R1 = ctx.rule("R1", "newOrder lists every configured identifier, in order, each copied by from_generic")
     nos = b.calls_to("acmed::acme_proto::structs::order::NewOrder::new")
